@@ -1,0 +1,100 @@
+//go:build verif
+
+package internal
+
+// Contracts for internal/headers.go (C18).
+//
+// AddHeaders/AddTrailers are specified against the ghost log of http.Header.Add calls
+// (hAddN/hAddH/hAddKey/hAddVal, see /verif/contracts/extern/std.vc): they perform exactly
+// one Add per value of every header, in order, on dest, under the header's name (with the
+// trailer prefix for AddTrailers), and nothing else.
+
+//@ elemvalues []*conformancev1.Header: v != nil
+
+// number of values carried by the first n headers
+//@ spec flatLen(src []*conformancev1.Header, n int) int = n <= 0 ? 0 : flatLen(src, n - 1) + len(src[n-1].Value)
+
+//@ lemma flatLenNonNeg(src []*conformancev1.Header, n int)
+//@   requires true
+//@   ensures flatLen(src, n) >= 0
+//@   induct flatLenNonNeg(src, n - 1) when n > 0
+//@   decreases n
+
+//@ lemma flatLenMono(src []*conformancev1.Header, m int, n int)
+//@   requires 0 <= m && m <= n
+//@   ensures flatLen(src, m) <= flatLen(src, n)
+//@   induct flatLenMono(src, m, n - 1) when n > m
+//@   decreases n
+
+//@ lemma flatLenStep(src []*conformancev1.Header, j int, n int)
+//@   requires 0 <= j && j < n
+//@   ensures flatLen(src, j) + len(src[j].Value) <= flatLen(src, n)
+//@   induct flatLenStep(src, j, n - 1) when n > j + 1
+//@   decreases n
+
+//@ func AddHeaders
+//@   requires hAddN[0] >= 0
+//@   modifies hAddN, hAddH, hAddKey, hAddVal, map[string][]string @ dest
+//@   ensures @count hAddN[0] == old(hAddN[0]) + flatLen(src, len(src))
+//@   ensures @adds forall j int, i int :: 0 <= j && j < len(src) && 0 <= i && i < len(src[j].Value) ==>
+//@        hAddH[old(hAddN[0]) + flatLen(src, j) + i] == dest &&
+//@        hAddKey[old(hAddN[0]) + flatLen(src, j) + i] == src[j].Name &&
+//@        hAddVal[old(hAddN[0]) + flatLen(src, j) + i] == src[j].Value[i]
+//@   ensures @earlier forall p int :: p < old(hAddN[0]) ==> hAddH[p] == old(hAddH[p]) && hAddKey[p] == old(hAddKey[p]) && hAddVal[p] == old(hAddVal[p])
+//@   loop 0: invariant hAddN[0] == atpre(hAddN[0]) + flatLen(src, rangeindex + 1)
+//@           invariant forall j int, i int :: 0 <= j && j <= rangeindex && 0 <= i && i < len(src[j].Value) ==>
+//@               hAddH[atpre(hAddN[0]) + flatLen(src, j) + i] == dest &&
+//@               hAddKey[atpre(hAddN[0]) + flatLen(src, j) + i] == src[j].Name &&
+//@               hAddVal[atpre(hAddN[0]) + flatLen(src, j) + i] == src[j].Value[i]
+//@           invariant forall p int :: p < atpre(hAddN[0]) ==> hAddH[p] == atpre(hAddH[p]) && hAddKey[p] == atpre(hAddKey[p]) && hAddVal[p] == atpre(hAddVal[p])
+//@   loop 1: invariant hAddN[0] == atpre(hAddN[0]) + flatLen(src, rangeindex0 + 1) + rangeindex + 1
+//@           invariant header == src[rangeindex0 + 1] && 0 <= rangeindex0 + 1 && rangeindex0 + 1 < len(src)
+//@           invariant forall j int, i int :: 0 <= j && j <= rangeindex0 && 0 <= i && i < len(src[j].Value) ==>
+//@               hAddH[atpre(hAddN[0]) + flatLen(src, j) + i] == dest &&
+//@               hAddKey[atpre(hAddN[0]) + flatLen(src, j) + i] == src[j].Name &&
+//@               hAddVal[atpre(hAddN[0]) + flatLen(src, j) + i] == src[j].Value[i]
+//@           invariant forall i int :: 0 <= i && i <= rangeindex ==>
+//@               hAddH[atpre(hAddN[0]) + flatLen(src, rangeindex0 + 1) + i] == dest &&
+//@               hAddKey[atpre(hAddN[0]) + flatLen(src, rangeindex0 + 1) + i] == header.Name &&
+//@               hAddVal[atpre(hAddN[0]) + flatLen(src, rangeindex0 + 1) + i] == header.Value[i]
+//@           invariant forall p int :: p < atpre(hAddN[0]) ==> hAddH[p] == atpre(hAddH[p]) && hAddKey[p] == atpre(hAddKey[p]) && hAddVal[p] == atpre(hAddVal[p])
+
+//@ func AddTrailers
+//@   requires hAddN[0] >= 0
+//@   modifies hAddN, hAddH, hAddKey, hAddVal, map[string][]string @ dest
+//@   ensures @count hAddN[0] == old(hAddN[0]) + flatLen(src, len(src))
+//@   ensures @adds forall j int, i int :: 0 <= j && j < len(src) && 0 <= i && i < len(src[j].Value) ==>
+//@        hAddH[old(hAddN[0]) + flatLen(src, j) + i] == dest &&
+//@        hAddKey[old(hAddN[0]) + flatLen(src, j) + i] == "Trailer:" + src[j].Name &&
+//@        hAddVal[old(hAddN[0]) + flatLen(src, j) + i] == src[j].Value[i]
+//@   ensures @earlier forall p int :: p < old(hAddN[0]) ==> hAddH[p] == old(hAddH[p]) && hAddKey[p] == old(hAddKey[p]) && hAddVal[p] == old(hAddVal[p])
+//@   loop 0: invariant hAddN[0] == atpre(hAddN[0]) + flatLen(src, rangeindex + 1)
+//@           invariant forall j int, i int :: 0 <= j && j <= rangeindex && 0 <= i && i < len(src[j].Value) ==>
+//@               hAddH[atpre(hAddN[0]) + flatLen(src, j) + i] == dest &&
+//@               hAddKey[atpre(hAddN[0]) + flatLen(src, j) + i] == "Trailer:" + src[j].Name &&
+//@               hAddVal[atpre(hAddN[0]) + flatLen(src, j) + i] == src[j].Value[i]
+//@           invariant forall p int :: p < atpre(hAddN[0]) ==> hAddH[p] == atpre(hAddH[p]) && hAddKey[p] == atpre(hAddKey[p]) && hAddVal[p] == atpre(hAddVal[p])
+//@   loop 1: invariant hAddN[0] == atpre(hAddN[0]) + flatLen(src, rangeindex0 + 1) + rangeindex + 1
+//@           invariant header == src[rangeindex0 + 1] && 0 <= rangeindex0 + 1 && rangeindex0 + 1 < len(src)
+//@           invariant forall j int, i int :: 0 <= j && j <= rangeindex0 && 0 <= i && i < len(src[j].Value) ==>
+//@               hAddH[atpre(hAddN[0]) + flatLen(src, j) + i] == dest &&
+//@               hAddKey[atpre(hAddN[0]) + flatLen(src, j) + i] == "Trailer:" + src[j].Name &&
+//@               hAddVal[atpre(hAddN[0]) + flatLen(src, j) + i] == src[j].Value[i]
+//@           invariant forall i int :: 0 <= i && i <= rangeindex ==>
+//@               hAddH[atpre(hAddN[0]) + flatLen(src, rangeindex0 + 1) + i] == dest &&
+//@               hAddKey[atpre(hAddN[0]) + flatLen(src, rangeindex0 + 1) + i] == "Trailer:" + header.Name &&
+//@               hAddVal[atpre(hAddN[0]) + flatLen(src, rangeindex0 + 1) + i] == header.Value[i]
+//@           invariant forall p int :: p < atpre(hAddN[0]) ==> hAddH[p] == atpre(hAddH[p]) && hAddKey[p] == atpre(hAddKey[p]) && hAddVal[p] == atpre(hAddVal[p])
+
+// ConvertToProtoHeader: one header per key of src, carrying that key's value list itself;
+// distinct entries carry distinct keys, so (with the equal length) every key appears once.
+//@ func ConvertToProtoHeader
+//@   modifies nothing
+//@   ensures @len len(result) == len(src)
+//@   ensures @entries forall p int :: 0 <= p && p < len(result) ==> result[p] != nil && has(src, result[p].Name) && result[p].Value == src[result[p].Name]
+//@   ensures @distinct forall p int, q int :: 0 <= p && p < q && q < len(result) ==> result[p].Name != result[q].Name
+//@   ensures @all forall k string :: has(src, k) ==> exists p int :: 0 <= p && p < len(result) && result[p].Name == k
+//@   loop 0: invariant len(headerInfo) == rangepos && (slicebase(headerInfo) == 0 || fresh(headerInfo))
+//@           invariant forall p int :: 0 <= p && p < rangepos ==> headerInfo[p] != nil && fresh(headerInfo[p]) && allocated(headerInfo[p])
+//@           invariant forall p int :: 0 <= p && p < rangepos ==> headerInfo[p].Name == rangekey(p)
+//@           invariant forall p int :: 0 <= p && p < rangepos ==> headerInfo[p].Value == src[rangekey(p)]
